@@ -318,6 +318,15 @@ pub enum SymbolSize {
     Rect26x64,
 }
 
+#[cfg(datamatrix_verif)]
+pub(crate) const SYMBOL_SIZES_VERIF: &[SymbolSize] = SYMBOL_SIZES;
+#[cfg(datamatrix_verif)]
+impl SymbolSize {
+    pub(crate) fn verif_capacity(&self) -> (usize, usize) {
+        let c = self.capacity();
+        (c.max, c.min)
+    }
+}
 #[rustfmt::skip]
 const SYMBOL_SIZES: &[SymbolSize] = &[
     SymbolSize::Square10, SymbolSize::Square12, SymbolSize::Rect8x18, SymbolSize::Square14,
